@@ -727,6 +727,9 @@ func (c *Ctx) havocSliceContents(s *State, sv SliceV, elem types.Type) {
 		if key == "M.byte" || key == "M.uint8" {
 			c.byteArrs[h] = true
 		}
+		// only the elements the slice value covers may change
+		old := sel(m, sv.Ref)
+		s.assume(forall([]string{"k"}, "(! "+implies(not(and(le(sv.Off, "k"), lt("k", add(sv.Off, sv.Len)))), eq(sel(h, "k"), sel(old, "k")))+" :pattern ((select "+h+" k)))"))
 		c.heapSet(s, key, sA2, store(m, sv.Ref, h))
 	}
 }
@@ -1105,6 +1108,29 @@ func (c *Ctx) specialCall(x *ast.CallExpr, s *State, callee *types.Func, key str
 		return NoneV{}, true
 	case "binary.bigEndian.AppendUint16", "binary.bigEndian.AppendUint32", "binary.bigEndian.AppendUint64":
 		// not used by the functions under contract
+	case "b.(*Tree).Put":
+		// modernc.org/b/v2 Tree.Put(k, upd): upd is called exactly once with (the value stored under k, true) or (zero,
+		// false); the tree changes only if upd returns true as its second result (contents summarised as ghost
+		// X.regionstate). Whether k is present is not tracked: both cases are explored.
+		if lit, ok := unparen(x.Args[1]).(*ast.FuncLit); ok && len(args) == 2 {
+			sig := c.typeOf(lit).(*types.Signature)
+			exists := c.fresh("treehas", sBool)
+			v := c.freshValue(s, "treeval", sig.Params().At(0).Type())
+			if iv, ok := v.(IntV); ok {
+				s.assume(eq(not(eq(iv.T, "0")), exists)) // an absent key is presented as the zero value; stored values are non-nil
+			}
+			res := c.inlineLit(lit, []Value{v, BoolV{exists}}, s, x)
+			write := "true"
+			if tv, ok := res.(TupleV); ok && len(tv) == 2 {
+				write = asBool(tv[1])
+			}
+			old := c.heapGet(s, "X.regionstate", sInt)
+			nw := c.fresh("treestate", sInt)
+			c.heapSet(s, "X.regionstate", sInt, ite(write, nw, old))
+			c.frameEffect(s, "X.regionstate")
+			c.note("b.Tree.Put: the updater runs once; the tree changes only if it returns true (assumed contract of modernc.org/b/v2, DESIGN.md Appendix A)")
+			return TupleV{c.freshValue(s, "treeold", sig.Params().At(0).Type()), BoolV{write}}, true
+		}
 	case "sync.(*Pool).Get":
 		// pool discipline (assumption): an object handed out by a sync.Pool is referenced by nobody else - it is
 		// treated like a new allocation (the pointer itself, or the backing array of a pooled []byte)
